@@ -21,7 +21,7 @@ INFO = dict(
         "index/type/length behind a valid header; Guardrails scanner with the patch sizes scaled to 24/16 through the module namespace: "
         "marker at every offset of a short file, symbolic guard configuration (terminated and unterminated), truncations; XorEncoded "
         "stages with symbolic size field / nonce and truncations; raw HTTP: 'HTTP/'-prefixed and free 8/9-byte messages",
-        thorough="fully symbolic inputs up to 12 bytes; more field pairs; truncation at every length of the scaffold",
+        thorough="fully symbolic inputs up to 9..14 bytes depending on the entry point; more field pairs and truncation points",
     ),
     outside="inputs longer than the bounds with fully symbolic content; Guardrails patch areas at their real size with symbolic content "
     "(scaled through BEACON_CONFIG_PATCH_SIZE / GUARD_PATCH_SIZE, which the code reads as module globals); unbounded looping is decided "
@@ -282,15 +282,15 @@ def instances(tier):
         return inst
 
     # (a) fully symbolic
-    sizes = {"parse_raw_http": (0, 3, 6, 8) if q else (0, 3, 6, 8, 9, 10),
-             "BeaconConfig(block)": (0, 1, 5, 6, 7, 8, 10) if q else range(0, 13),
+    sizes = {"parse_raw_http": (0, 3, 6, 8) if q else (0, 3, 6, 8, 9),
+             "BeaconConfig(block)": (0, 1, 5, 6, 7, 8, 10) if q else range(0, 12),
              "iter_artifactkit_payloads": (0, 3, 4, 8, 12) if q else (0, 3, 4, 8, 12, 16, 20),
              "iter_guardrail_configs": (0, 5, 6, 7, 11, 12, 13) if q else range(0, 15),
              "iter_guardrail_configs_with_beacon": (0, 6, 12, 13) if q else (0, 6, 11, 12, 13, 14),
-             "from_bytes": (0, 6, 7) if q else (0, 6, 7, 8, 10, 12),
-             "from_file": (0, 7, 8) if q else (0, 7, 8, 10, 12),
-             "from_bytes(all_xor_keys)": (0, 6) if q else (0, 7, 8),
-             "XorEncodedFile.from_file": (0, 7, 8, 9) if q else (0, 7, 8, 9, 10, 12)}
+             "from_bytes": (0, 6, 7) if q else (0, 6, 7, 8, 9),
+             "from_file": (0, 7, 8) if q else (0, 7, 8, 9),
+             "from_bytes(all_xor_keys)": (0, 6) if q else (0, 7),
+             "XorEncodedFile.from_file": (0, 7, 8, 9) if q else (0, 7, 8, 9, 10)}
     for e in PE_ENTRIES:
         sizes[e] = (0, 8) if q else (0, 1, 8, 12)
     for e, Ns in sizes.items():
